@@ -50,3 +50,15 @@ claim('C17',
       "Bounded symbolic model checking, relational: for every child->parent map of the listed sizes and every reduction (flatten / drop of each non-leaf level) the real reduced tree is proved equal to an independently built taxonomy that never had the level, the real level loop is run on both with one shared vote oracle and the records are proved identical, and the back-filled levels are proved to be the ancestors. The marker side: real create_marker_cache_from_specified_markers on the reduced tree gives the same cache with and without the marker lists of the removed parents, for every table / query subset in the bounds.",
       "the _run_mapping call sequence itself (reduce before reconciliation, original tree kept for output, union of lists when flattening) is not yet covered by a stage-level harness",
       "DESIGN.md §4 C17")
+claim('C15',
+      "Bounded exploration of the real run_mapping on real files (real h5py / pandas / anndata), the solver enumerating the run configurations (no reduction / flatten / drop of each level / unknown level, 1 or 7 iterations, 0-2 runners-up, worker count, name tables present or absent): on every path the CSV is parsed back and compared with the JSON records through the taxonomy's name tables, the HDF5 file is read back with hdf5_to_blob and compared field by field, and the embedded taxonomy / marker table are compared with the inputs.",
+      "data values are fixed concrete numbers (I/O-driven code: once the configuration is fixed every obligation is a concrete evaluation on the written files); the four-decimal rendering is compared against Python's own '%.4f'; argschema CLI layer outside",
+      "DESIGN.md §4 C15")
+claim('C19',
+      "Bounded exploration of the real run_mapping on real files with solver-chosen failure point (none / any worker in three modes / any of five environment steps before or after its work), solver-chosen planting of stale files under every name pattern the stage uses in scratch and output directories, dense / CSC query: input digests, scratch-directory listing, output-directory listing and independence of the result from stale files are checked on every path.",
+      "mapping stage only; concurrency of two OS processes on one directory is not modelled (mkdtemp uniqueness trusted); the other stages' scratch handling is checked only where their harness lists the scratch directory (C09, C13)",
+      "DESIGN.md §4 C19")
+claim('C20',
+      "Bounded exploration of the real run_mapping with cloud_safe=True on real files: the solver chooses punctuation in directory / file names and how the run ends (success, five classes of invalid input, worker failure, failing environment step before/after); the JSON config and log, the log file and the HDF5 metadata are scanned for the sandbox root and the installation directory.",
+      "names with spaces are outside (as in the property); third-party exception texts as an open set are outside; absence of a leak is established only for the messages these endings produce",
+      "DESIGN.md §4 C20")
